@@ -720,6 +720,16 @@ static int sbdf_read_valuearray_int(FILE* file, sbdf_valuearray** handle)
 				return err;
 			}
 
+			if (v < 0)
+			{
+				/* a negative row count would make the skip below seek backwards */
+				if (handle)
+				{
+					sbdf_va_destroy(*handle);
+				}
+				return SBDF_ERROR_INVALID_SIZE;
+			}
+
 			if (handle)
 			{
 				(*handle)->value1 = v;
